@@ -47,6 +47,10 @@ int g_j;     /* second ghost index */
    pointer `num` carries into bit 56, so the offset of the in-block pointer num+start is taken modulo 2^56 */
 #define VWO_POFF(p) ((long)__CPROVER_POINTER_OFFSET(p) & 0x00FFFFFFFFFFFFFFL)
 #define VWO_OFF(v) (VWO_POFF((v)->num + (v)->start) / (long)sizeof(T))
+/* element i of the abstract view, addressed through the in-block pointer (CBMC's history variables do not follow the
+   out-of-block base pointer `num` reliably, probe P13); the kernel bodies themselves keep using num[i] */
+#define VWO_ELEM(v, i) ((v)->begin_allocated_memory[VWO_OFF(v) + ((long)(i) - (long)(v)->start)])
+#define VWO_AT(v, i) VWO_ELEM(v, i)
 #define VWO_MIN(v) ((long)(v)->start)
 #define VWO_MAX(v) ((long)(v)->start + (long)(v)->length - 1)
 #define VWO_IN_RANGE(v, i) ((v)->length > 0 && (long)(i) >= VWO_MIN(v) && (long)(i) <= VWO_MAX(v))
@@ -185,7 +189,7 @@ static inline void K_sptr_reset(T** p)
 #define CONTRACT_K_vwo_fill                                                                                          \
   __CPROVER_requires(VWO_VALID(self)) __CPROVER_requires(self->length == 0 || (VWO_IN_RANGE(self, g_i) && (long)g_j == (long)g_i - VWO_MIN(self))) \
   __CPROVER_assigns(self->length > 0 : FRAME_ELEMS(self))                                                              \
-  __CPROVER_ensures(self->length == 0 || self->num[g_i] == n)
+  __CPROVER_ensures(self->length == 0 || VWO_ELEM(self, g_i) == n)
 
 /* operator==: true iff same index range and all elements equal */
 #define CONTRACT_K_vwo_equals                                                                                        \
@@ -193,35 +197,51 @@ static inline void K_sptr_reset(T** p)
   __CPROVER_requires(self->length == 0 || (VWO_IN_RANGE(self, g_i) && (long)g_j == (long)g_i - VWO_MIN(self)))        \
   __CPROVER_assigns()                                                                                                  \
   __CPROVER_ensures((self->length != iv->length || self->start != iv->start) ==> !__CPROVER_return_value)              \
-  __CPROVER_ensures((__CPROVER_return_value && self->length > 0) ==> self->num[g_i] == iv->num[g_i])
+  __CPROVER_ensures((__CPROVER_return_value && self->length > 0) ==> VWO_ELEM(self, g_i) == VWO_ELEM(iv, g_i))
 
 /* VectorWithOffset arithmetic: "operations whose operands have incompatible index ranges are reported as errors",
    nothing is written in that case, and (frame) nothing outside this vector's own elements is ever written. */
+#ifdef SELF_EMPTY
+/* sub-domain 1: *this is empty (no element to speak about) */
 #define ARITH_CONTRACT(OPEXPR)                                                                                        \
-  __CPROVER_requires(VWO_VALID(self) && VWO_VALID(v) && g_error == 0)                                                  \
-  __CPROVER_requires(self->begin_allocated_memory == NULL || v->begin_allocated_memory == NULL                        \
-                     || !__CPROVER_same_object(self->begin_allocated_memory, v->begin_allocated_memory))               \
-  __CPROVER_requires(self->length == 0 || VWO_IN_RANGE(self, g_i))                                                     \
-  __CPROVER_assigns(g_error; self->length > 0 : FRAME_ELEMS(self))                                                     \
+  __CPROVER_requires(VWO_VALID(self) && VWO_VALID(v) && g_error == 0 && self->length == 0)                             \
+  __CPROVER_assigns(g_error)                                                                                           \
   __CPROVER_ensures((self->start != v->start || self->length != v->length) ==> g_error)                                \
-  __CPROVER_ensures((g_error && self->length > 0) ==> self->num[g_i] == __CPROVER_old(self->num[g_i]))                 \
-  __CPROVER_ensures((!g_error && self->length > 0) ==> self->num[g_i] == (T)(OPEXPR))                                  \
+  __CPROVER_ensures((self->start == v->start && self->length == v->length) ==> !g_error)                               \
   __CPROVER_ensures(__CPROVER_return_value == self)
 #define ARITH_LOOP(OPEXPR)                                                                                            \
-  __CPROVER_assigns(i, FRAME_ELEMS(self))                                                           \
+  __CPROVER_assigns(i)                                                                                                 \
   __CPROVER_loop_invariant((long)i >= VWO_MIN(v) && (long)i <= VWO_MAX(v) + 1)                                         \
-  __CPROVER_loop_invariant(self->length == 0 || self->num[g_i] == (g_i < i ? (T)(OPEXPR) : __CPROVER_loop_entry(self->num[g_i]))) \
   __CPROVER_decreases(VWO_MAX(v) + 1 - (long)i)
+#else
+/* sub-domain 2: *this non-empty; g_i stands for every index of *this */
+#define ARITH_CONTRACT(OPEXPR)                                                                                        \
+  __CPROVER_requires(VWO_VALID(self) && VWO_VALID(v) && g_error == 0 && self->length > 0)                              \
+  __CPROVER_requires(v->begin_allocated_memory == NULL                                                                \
+                     || !__CPROVER_same_object(self->begin_allocated_memory, v->begin_allocated_memory))               \
+  __CPROVER_requires(VWO_IN_RANGE(self, g_i))                                                                          \
+  __CPROVER_assigns(g_error; FRAME_ELEMS(self))                                                                        \
+  __CPROVER_ensures((self->start != v->start || self->length != v->length) ==> g_error)                                \
+  __CPROVER_ensures((self->start == v->start && self->length == v->length) ==> !g_error)                               \
+  __CPROVER_ensures(g_error ==> VWO_ELEM(self, g_i) == __CPROVER_old(VWO_ELEM(self, g_i)))                                       \
+  __CPROVER_ensures(!g_error ==> VWO_ELEM(self, g_i) == (T)(OPEXPR))                                                        \
+  __CPROVER_ensures(__CPROVER_return_value == self)
+#define ARITH_LOOP(OPEXPR)                                                                                            \
+  __CPROVER_assigns(i, FRAME_ELEMS(self))                                                                              \
+  __CPROVER_loop_invariant((long)i >= VWO_MIN(v) && (long)i <= VWO_MAX(v) + 1)                                         \
+  __CPROVER_loop_invariant(VWO_ELEM(self, g_i) == (g_i < i ? (T)(OPEXPR) : __CPROVER_loop_entry(VWO_ELEM(self, g_i))))           \
+  __CPROVER_decreases(VWO_MAX(v) + 1 - (long)i)
+#endif
 
-#define CONTRACT_K_vwo_plus_assign ARITH_CONTRACT(__CPROVER_old(self->num[g_i]) + v->num[g_i])
-#define LC_K_vwo_plus_assign_0 ARITH_LOOP(__CPROVER_loop_entry(self->num[g_i]) + v->num[g_i])
-#define CONTRACT_K_vwo_minus_assign ARITH_CONTRACT(__CPROVER_old(self->num[g_i]) - v->num[g_i])
-#define LC_K_vwo_minus_assign_0 ARITH_LOOP(__CPROVER_loop_entry(self->num[g_i]) - v->num[g_i])
-#define CONTRACT_K_vwo_mult_assign ARITH_CONTRACT(__CPROVER_old(self->num[g_i]) * v->num[g_i])
-#define LC_K_vwo_mult_assign_0 ARITH_LOOP(__CPROVER_loop_entry(self->num[g_i]) * v->num[g_i])
+#define CONTRACT_K_vwo_plus_assign ARITH_CONTRACT(__CPROVER_old(VWO_ELEM(self, g_i)) + VWO_ELEM(v, g_i))
+#define LC_K_vwo_plus_assign_0 ARITH_LOOP(__CPROVER_loop_entry(VWO_ELEM(self, g_i)) + VWO_ELEM(v, g_i))
+#define CONTRACT_K_vwo_minus_assign ARITH_CONTRACT(__CPROVER_old(VWO_ELEM(self, g_i)) - VWO_ELEM(v, g_i))
+#define LC_K_vwo_minus_assign_0 ARITH_LOOP(__CPROVER_loop_entry(VWO_ELEM(self, g_i)) - VWO_ELEM(v, g_i))
+#define CONTRACT_K_vwo_mult_assign ARITH_CONTRACT(__CPROVER_old(VWO_ELEM(self, g_i)) * VWO_ELEM(v, g_i))
+#define LC_K_vwo_mult_assign_0 ARITH_LOOP(__CPROVER_loop_entry(VWO_ELEM(self, g_i)) * VWO_ELEM(v, g_i))
 /* division: requires the ghost divisor non-zero only for the value clause; the div-by-zero check is off for this job
    (element values are the caller's business), see props/c11.py */
-#define CONTRACT_K_vwo_div_assign ARITH_CONTRACT(v->num[g_i] == 0 ? self->num[g_i] : __CPROVER_old(self->num[g_i]) / v->num[g_i])
-#define LC_K_vwo_div_assign_0 ARITH_LOOP(v->num[g_i] == 0 ? self->num[g_i] : __CPROVER_loop_entry(self->num[g_i]) / v->num[g_i])
+#define CONTRACT_K_vwo_div_assign ARITH_CONTRACT(VWO_ELEM(v, g_i) == 0 ? VWO_ELEM(self, g_i) : __CPROVER_old(VWO_ELEM(self, g_i)) / VWO_ELEM(v, g_i))
+#define LC_K_vwo_div_assign_0 ARITH_LOOP(VWO_ELEM(v, g_i) == 0 ? VWO_ELEM(self, g_i) : __CPROVER_loop_entry(VWO_ELEM(self, g_i)) / VWO_ELEM(v, g_i))
 
 #endif
